@@ -818,6 +818,8 @@ def _side_operands_are_layout_free(node: ir.Node, chain_value: Optional[ir.Value
 
 
 def _is_elementwise_node(node: ir.Node) -> bool:
+    if (getattr(node, "domain", "") or "") != "":
+        return False
     return (
         node.op_type in ELEMENTWISE_UNARY_OPS or node.op_type in ELEMENTWISE_BINARY_OPS
     )
@@ -1736,7 +1738,10 @@ def remove_redundant_transpose_pairs_ir(graph: ir.Graph) -> None:
                 while steps < 8:
                     steps += 1
                     m = cur
-                    if m.op_type in ALLOWED_ELEMWISE:
+                    if (
+                        m.op_type in ALLOWED_ELEMWISE
+                        and (getattr(m, "domain", "") or "") == ""
+                    ):
                         if not _side_operands_are_layout_free(m, chain_val):
                             break
                         cur_val = _node_output(m)
